@@ -664,6 +664,10 @@ impl<'tcx> Cx<'tcx> {
                     }
                 } else if matches!(val, mir::ConstValue::ZeroSized) {
                     o.push(("zst", J::Bool(true)));
+                } else if let Some((did, bytes)) = static_bytes(tcx, &val) {
+                    // a reference to an immutable `static` table without pointers (a lookup table): its bytes
+                    o.push(("static", J::s(self.dp(did))));
+                    o.push(("bytes", J::Arr(bytes.iter().map(|b| J::n(*b as usize)).collect())));
                 } else {
                     o.push(("val", J::s(format!("{}", c.const_))));
                 }
@@ -707,6 +711,17 @@ impl<'tcx> Cx<'tcx> {
                             }
                             if ok {
                                 o.push(("strs", J::Arr(strs.into_iter().map(J::s).collect())));
+                            }
+                            // a promoted reference to a small pointer-free value (`&Kind::Start`): its bytes
+                            if let mir::ConstValue::Scalar(mir::interpret::Scalar::Ptr(ptr, _)) = val {
+                                let (prov, off) = ptr.into_raw_parts();
+                                if let Some(mir::interpret::GlobalAlloc::Memory(a)) = tcx.try_get_global_alloc(prov.alloc_id()) {
+                                    let a = a.inner();
+                                    if off.bytes() == 0 && a.provenance().ptrs().is_empty() && a.len() <= 16 && a.len() > 0 {
+                                        let bs = a.inspect_with_uninit_and_ptr_outside_interpreter(0..a.len());
+                                        o.push(("bytes", J::Arr(bs.iter().map(|b| J::n(*b as usize)).collect())));
+                                    }
+                                }
                             }
                             // a constant of a (private) struct type: its pretty-printed value, e.g. `Entry { name: "None", index: 0_u8 }`
                             if cty.is_adt() {
@@ -919,6 +934,26 @@ impl<'tcx> Cx<'tcx> {
             other => obj! {"k": J::s("other"), "s": J::s(format!("{:?}", other)), "line": line},
         }
     }
+}
+
+/// `&STATIC` where STATIC is an immutable static of at most 4 KiB without pointers: (its DefId, its initial bytes)
+fn static_bytes<'tcx>(tcx: TyCtxt<'tcx>, val: &mir::ConstValue) -> Option<(DefId, Vec<u8>)> {
+    use mir::interpret::{GlobalAlloc, Scalar};
+    let mir::ConstValue::Scalar(Scalar::Ptr(ptr, _)) = val else { return None };
+    let (prov, off) = ptr.into_raw_parts();
+    if off.bytes() != 0 {
+        return None;
+    }
+    let Some(GlobalAlloc::Static(did)) = tcx.try_get_global_alloc(prov.alloc_id()) else { return None };
+    if tcx.is_mutable_static(did) {
+        return None;
+    }
+    let alloc = tcx.eval_static_initializer(did).ok()?;
+    let a = alloc.inner();
+    if !a.provenance().ptrs().is_empty() || a.len() > 4096 {
+        return None;
+    }
+    Some((did, a.inspect_with_uninit_and_ptr_outside_interpreter(0..a.len()).to_vec()))
 }
 
 fn slice_bytes<'tcx>(tcx: TyCtxt<'tcx>, val: &mir::ConstValue) -> Option<&'tcx [u8]> {
